@@ -93,7 +93,6 @@ pub mod mm {
     }
     #[inline]
     pub fn atan2(y: f32, x: f32) -> f32 {
-        #[cfg(debug_assertions)]
         if y == 0.0 && x == 0.0 {
             // Micromath yields a NaN but others return zero
             return 0.0;
